@@ -38,7 +38,8 @@ Check(e) ==
   IF e.area2 # Area2(g) THEN "area"
   ELSE IF Orient(g) # 0 /\ e.sarea2 # Orient(g)*Area2(g) THEN "signed-area"
   ELSE IF e.area2t # e.ts*e.ts*Area2(g) THEN "area-with-transform"
-  ELSE IF ~(LenLo(g) <= e.lenn /\ e.lenn <= LenHi(g)) THEN "length"
+  \* (in a general-position float image a length that is an exact multiple of 1/256 may come out one unit lower)
+  ELSE IF ~(LenLo(g) - (IF e.gp THEN 1 ELSE 0) <= e.lenn /\ e.lenn <= LenHi(g)) THEN "length"
   ELSE CheckCentroid(e,g)
 
 Init == sh \in 1..S /\ l = sh
